@@ -62,6 +62,7 @@ let ctx () = match !ctx_cache with
   | None -> let c = mk_ctx ops !cur in ctx_cache := Some c; c
 let set_state s = cur := s; ctx_cache := None
 
+let mstate : string mstate option ref = ref None
 let checks = ref 0
 let fails = ref 0
 let lineno = ref 0
@@ -361,6 +362,36 @@ let handle (toks : string list) =
              (string_of_n img.m_rows) (string_of_n img.m_numleaves) (List.length dc) (List.length dn) (int_of_nat consumed)
              rows numleaves (List.length ec) (List.length en) (String.length hx / 2))
      | None -> fail "mirror" ("WIREMAP." ^ label) "mirror decoder rejects the bytes the implementation wrote")
+  (* MAPSTATE total full n nodes(pos:hash:rem,..) cached(hash:pos,..) : the dumped MapPollard for the MR events *)
+  | ["MAPSTATE"; total; full; n; nodes; cached] ->
+    let nl = List.map (fun e -> match String.split_on_char ':' e with
+        | [p; h; r] -> (n_of_string p, (unhex h, r = "1")) | _ -> failwith "node") (split_list nodes) in
+    let cl = List.map (fun e -> match String.split_on_char ':' e with
+        | [h; p] -> (unhex h, n_of_string p) | _ -> failwith "cached") (split_list cached) in
+    mstate := Some { ms_nodes = nl; ms_cached = cl; ms_n = n_of_string n; ms_total = n_of_string total; ms_full = (full = "1") }
+  (* MR label fn args = result : mirror of the MapPollard read side on the dumped state *)
+  | "MR" :: label :: fn :: rest ->
+    (match !mstate with
+     | None -> fail "harness" "MR" "no MAPSTATE"
+     | Some m ->
+       let rec split acc = function
+         | "=" :: r -> (List.rev acc, r) | x :: r -> split (x :: acc) r | [] -> (List.rev acc, []) in
+       let (args, res) = split [] rest in
+       let got = String.concat " " res in
+       let a i = List.nth args i in
+       let exp = (try (match fn with
+           | "GetHash" -> hex_of (getHash ops m (n_of_string (a 0)))
+           | "GetLeafPosition" -> (match getLeafPosition ops m (unhex (a 0)) with Some p -> string_of_n p | None -> "none")
+           | "GetLeafHashPositions" -> str_ns (getLeafHashPositions ops m (hashes_of (a 0)))
+           | "GetRoots" -> str_hs (getRoots ops m)
+           | "Prove" -> (match prove ops m (hashes_of (a 0)) with
+               | Some (t, p) -> "ok " ^ str_ns t ^ " " ^ str_hs p | None -> "err")
+           | "GetMissingPositions" -> str_ns (getMissingPositions m (ns_of (a 0)))
+           | "VerifyPartialProof" -> outcome_str (verifyPartialProof ops m (ns_of (a 0)) (hashes_of (a 1)) (hashes_of (a 2)))
+           | "Verify" -> outcome_str (map_verify ops m (hashes_of (a 0)) (ns_of (a 1)) (hashes_of (a 2)))
+           | _ -> "unknown-fn") with Failure x -> "EXC:" ^ x | Invalid_argument x -> "EXC:" ^ x) in
+       check "mirror" ("MR." ^ fn ^ "." ^ label) (String.equal exp got)
+         (fun () -> Printf.sprintf "args=%s model=%s impl=%s" (String.concat " " args) (String.sub exp 0 (min 300 (String.length exp))) (String.sub got 0 (min 300 (String.length got)))))
   | ["EQ"; label; a; b] ->
     check "prop" ("EQ." ^ label) (String.equal a b) (fun () -> Printf.sprintf "a=%s b=%s" a b)
   | t :: _ -> fail "harness" t "unknown event"
